@@ -95,6 +95,7 @@ def check(case, ev):
     # ---- direction => ------------------------------------------------------------------------------
     n_sat = 0
     n_all = 0
+    kept = []
     for env in common.assignments(case, lv):
         n_all += 1
         memo = {}
@@ -110,6 +111,8 @@ def check(case, ev):
                 raise Violation(f"satisfying assignment {env}: column {i!r} value {v} outside column bounds {(lo, hi)}")
         if not oracle.all_rows_hold(rws, x):
             raise Violation(f"valid configuration lost: {env} satisfies the model but its completion {full} violates the polyhedron")
+        if case.get("near_miss") and len(kept) < 6:
+            kept.append((dict(env), dict(full)))
     ev.count("satisfying_assignments", n_sat)
     # ---- direction <= ------------------------------------------------------------------------------
     built_safe = oracle.solver_safe(m)
@@ -123,7 +126,42 @@ def check(case, ev):
         aux_idx = [j for j, i in enumerate(ids) if i in comps]
         size = oracle.box_size(colb)
         guard = 30000 if case.get("tier", "quick") == "quick" else 250000
-        if size <= guard:
+        if case.get("near_miss"):
+            # LARGE models: neither enumerable nor a sensible MILP instance. Candidate points are NEAR MISSES of feasible points:
+            # a satisfying assignment with its evaluated auxiliary values, in which one leaf - or all direct leaves of one
+            # sub-proposition - are moved to their other bound while the auxiliary values stay. Each is an in-bounds integer
+            # point; if its leaf part makes the model false it must violate some row.
+            feas = []
+            strict = False
+            n_nm = 0
+            nodes = sorted(comps.items(), key=lambda kv: str(kv[0]))
+            for env, full in kept:
+                muts = []
+                for cid, node in nodes[:: max(1, len(nodes) // 80)]:
+                    leaves_c = [c.id for c in node.propositions if oracle.is_leaf(c) and c.id in env]
+                    if leaves_c:
+                        muts.append(leaves_c)
+                lids = sorted(env)
+                for lid in lids[:: max(1, len(lids) // 40)]:
+                    muts.append([lid])
+                for group in muts:
+                    env2 = dict(env)
+                    for lid in group:
+                        lo, hi = lv[lid]
+                        env2[lid] = lo if env2[lid] != lo else hi
+                    if oracle.obj_value(m, env2) == 1:
+                        continue
+                    n_nm += 1
+                    full2 = dict(full)
+                    full2.update(env2)
+                    if oracle.all_rows_hold(rws, [full2[i] for i in ids]):
+                        raise Violation(f"solver-safe model: the in-bounds integer point obtained from a feasible point by moving {group} to the "
+                                        f"other bound (auxiliary values kept) satisfies the polyhedron although its leaf part makes the model false")
+            ev.count("near_miss_points", n_nm)
+            cl.append("converse_near_misses")
+            if n_nm:
+                cl.append("near_miss_judged")
+        elif size <= guard:
             pts = list(itertools.product(*[range(lo, hi + 1) for lo, hi in colb]))
             mask = oracle.feasible_mask(rws, pts)
             feas = [p for p, ok in zip(pts, mask) if ok]
@@ -166,7 +204,7 @@ def check(case, ev):
             if not slack and aux_idx:
                 if any(full[cid] != oracle.obj_value(node, env, memo=memo) for cid, node in comps.items() if cid in full):
                     slack = True
-        nontrivial = bool(aux_idx) and len(feas) > 0 and (strict or slack)
+        nontrivial = bool(aux_idx) and ((len(feas) > 0 and (strict or slack)) or "near_miss_judged" in cl)
         if slack:
             cl.append("aux_slack_point")
         if not feas:
@@ -196,7 +234,7 @@ def empty(slice_i, n):
         yield {"model": spec, "points": None, "obj": []}
 
 def parts(tier):
-    return [Part("concat_names", enumerate_cases=(lambda t: ({"model": {"k": "Not", "c": [s_]}, "points": None, "obj": []} for s_ in __import__("vf.strategies", fromlist=["x"]).concat_shapes())), check=check, time_quick=150.0), Part("empty0", enumerate_cases=(lambda t: empty(0, 1)), check=check, time_quick=120.0), Part("class_twins", strategy=lambda t: S.class_twin_spec().map(lambda s_: {"model": s_, "points": None, "obj": [], "tier": t}), check=check, quick=(1, 300), thorough=(2, 3000))] + [Part("bounding%d" % i, enumerate_cases=(lambda t, i=i: ({"model": s_, "points": None, "obj": [], "tier": "quick"} for s_ in S.bounding_shapes(i, 2))), check=check, time_quick=120.0) for i in range(2)] + [Part("mixed%d" % i, enumerate_cases=(lambda t, i=i: mixed(i, 8)), check=check, time_quick=150.0) for i in range(8)] + [Part("shapes%d" % i, enumerate_cases=(lambda t, i=i: shapes(i, 4)), check=check, time_quick=120.0) for i in range(4)] + [
+    return [Part("scale", strategy=lambda t: S.scale_case(booleans_only=True).map(lambda c: dict(c, obj=[], near_miss=True)), check=check, quick=(2, 30), thorough=(4, 400)), Part("concat_names", enumerate_cases=(lambda t: ({"model": {"k": "Not", "c": [s_]}, "points": None, "obj": []} for s_ in __import__("vf.strategies", fromlist=["x"]).concat_shapes())), check=check, time_quick=150.0), Part("empty0", enumerate_cases=(lambda t: empty(0, 1)), check=check, time_quick=120.0), Part("class_twins", strategy=lambda t: S.class_twin_spec().map(lambda s_: {"model": s_, "points": None, "obj": [], "tier": t}), check=check, quick=(1, 300), thorough=(2, 3000))] + [Part("bounding%d" % i, enumerate_cases=(lambda t, i=i: ({"model": s_, "points": None, "obj": [], "tier": "quick"} for s_ in S.bounding_shapes(i, 2))), check=check, time_quick=120.0) for i in range(2)] + [Part("mixed%d" % i, enumerate_cases=(lambda t, i=i: mixed(i, 8)), check=check, time_quick=150.0) for i in range(8)] + [Part("shapes%d" % i, enumerate_cases=(lambda t, i=i: shapes(i, 4)), check=check, time_quick=120.0) for i in range(4)] + [
         Part("small", strategy=lambda t: _with_tier(case_strategy(t, "small"), t), check=check, quick=(6, 200), thorough=(12, 1500)),
         Part("large", strategy=lambda t: _with_tier(case_strategy(t, "large"), t), check=check, quick=(2, 80), thorough=(4, 500)),
         Part("huge", strategy=lambda t: _with_tier(case_strategy(t, "huge"), t), check=check, quick=(1, 80), thorough=(2, 500)),
